@@ -1,14 +1,76 @@
-(* C08 - The grid spatial index never omits a feature that is geometrically there.  (first version: R-level statements) *)
-From Coq Require Import List Reals ZArith Lra Lia Bool.
+(* C08 - The grid spatial index never omits a feature that is geometrically there.
+   Statements are about the executable rational model Model/Grid.v (the one the correspondence runs), for every rational
+   set-up and every REAL parameter along a feature segment; the geometric core is proved over R (Proofs/GridCells.v) and
+   transported by Proofs/GridQ2R.v. *)
+From Coq Require Import List ZArith QArith Qround Qreals Reals Lra Lia Bool.
 Import ListNotations.
 From Flocq Require Import Raux.
-From TL Require Import Proofs.GridCells Proofs.GridIndex Proofs.GridUnits Proofs.GridNeigh.
-Open Scope R_scope.
+From TL Require Import Model.Grid Proofs.GridCells Proofs.GridQ2R Proofs.GridCellsC Proofs.GridBuild Proofs.GridWf Proofs.GridQuery.
 
-Theorem C08_cell_complete ax ay bx by_ i j lam :
-  0 <= lam <= 1 ->
-  let px := ax + lam * (bx - ax) in let py := ay + lam * (by_ - ay) in
-  i <= px < i + 1 -> j <= py < j + 1 ->
-  cell_test ax ay bx by_ i j = true.
-Proof. exact (cell_complete ax ay bx by_ i j lam). Qed.
-Print Assumptions C08_cell_complete.
+(* the constructor yields a well-formed index for any box of positive width and height, non-negative margin, positive resolution *)
+Theorem C08_constructor x0 x1 y0 y1 m rx ry ix : (x0 < x1)%Q -> (y0 < y1)%Q -> (0 <= m)%Q -> (0 < rx)%Q -> (0 < ry)%Q ->
+  make x0 x1 y0 y1 m rx ry = Ok ix -> wf_index ix.
+Proof. exact (make_wf x0 x1 y0 y1 m rx ry ix). Qed.
+
+(* building never fails when every vertex lies inside the extent, and registers each feature in every cell returned for
+   each of its segments *)
+Theorem C08_build ix feats : wf_index ix -> (forall poly p, In poly feats -> In p poly -> in_extent ix p) ->
+  exists g, build ix feats = Ok g /\
+    forall k poly p q cs c, nth_error feats k = Some poly -> In (p, q) (segments poly) -> seg_cells ix p q = Some cs -> In c cs ->
+      In k (lookup g c).
+Proof. intros Hwf Hin. exact (build_registers ix feats (extent_good ix feats Hwf Hin)). Qed.
+
+(* the cells returned for a segment contain the cell (upper borders folded into the last cells) of every point of it *)
+Theorem C08_cells_complete (cs ls : Z) (ax ay bx by_ : Q) (lam : R) :
+  (0 < cs)%Z -> (0 < ls)%Z -> (0 <= lam <= 1)%R ->
+  (0 <= Q2R ax <= IZR cs)%R -> (0 <= Q2R bx <= IZR cs)%R -> (0 <= Q2R ay <= IZR ls)%R -> (0 <= Q2R by_ <= IZR ls)%R ->
+  let px := (Q2R ax + lam * (Q2R bx - Q2R ax))%R in let py := (Q2R ay + lam * (Q2R by_ - Q2R ay))%R in
+  In (Z.min (Zfloor px) (cs - 1), Z.min (Zfloor py) (ls - 1)) (cells cs ls ax ay bx by_).
+Proof. exact (cells_complete_Q cs ls ax ay bx by_ lam). Qed.
+
+(* point query: every feature having a segment with a point in the cell that contains the query point is returned *)
+Theorem C08_point_query ix feats g k poly p q a b (lam : R) x y c :
+  wf_index ix -> build ix feats = Ok g -> good_feats ix feats ->
+  nth_error feats k = Some poly -> In (p, q) (segments poly) ->
+  get_cell ix (fst p) (snd p) = Some a -> get_cell ix (fst q) (snd q) = Some b -> (0 <= lam <= 1)%R ->
+  get_cell ix x y = Some c ->
+  cell_of ix c = (Z.min (Zfloor (Q2R (fst a) + lam * (Q2R (fst b) - Q2R (fst a)))) (csize ix - 1),
+                  Z.min (Zfloor (Q2R (snd a) + lam * (Q2R (snd b) - Q2R (snd a)))) (lsize ix - 1)) ->
+  exists r, request_point ix g x y = Some r /\ In k r.
+Proof. exact (request_point_complete ix feats g k poly p q a b lam x y c). Qed.
+
+(* segment query: every feature registered in a crossed cell is returned *)
+Theorem C08_segment_query ix g p q a b c k :
+  get_cell ix (fst p) (snd p) = Some a -> get_cell ix (fst q) (snd q) = Some b ->
+  In c (cells (csize ix) (lsize ix) (fst a) (snd a) (fst b) (snd b)) -> In k (lookup g c) ->
+  exists r, request_segment ix g p q = Some r /\ In k r.
+Proof. exact (request_segment_complete ix g p q a b c k). Qed.
+
+(* neighbourhood query with a radius converted from a ground distance d: every feature having a point within ground
+   distance d of the query point is returned (grid coordinates times the cell sides are ground offsets) *)
+Theorem C08_neighbourhood ix feats g k poly p q a b (lam : R) x y c (d : Q) :
+  wf_index ix -> build ix feats = Ok g -> good_feats ix feats ->
+  nth_error feats k = Some poly -> In (p, q) (segments poly) ->
+  get_cell ix (fst p) (snd p) = Some a -> get_cell ix (fst q) (snd q) = Some b -> (0 <= lam <= 1)%R ->
+  get_cell ix x y = Some c -> (0 <= d)%Q ->
+  (let rx := (Q2R (fst a) + lam * (Q2R (fst b) - Q2R (fst a)))%R in let ry := (Q2R (snd a) + lam * (Q2R (snd b) - Q2R (snd a)))%R in
+   ((Q2R (fst c) - rx) * Q2R (dX ix)) * ((Q2R (fst c) - rx) * Q2R (dX ix)) + ((Q2R (snd c) - ry) * Q2R (dY ix)) * ((Q2R (snd c) - ry) * Q2R (dY ix)) <= Q2R d * Q2R d)%R ->
+  exists r, neighborhood_point ix g x y (units ix d) = Some r /\ In k r.
+Proof. exact (neighborhood_complete_Q ix feats g k poly p q a b lam x y c d). Qed.
+
+Print Assumptions C08_constructor.
+Print Assumptions C08_build.
+Print Assumptions C08_cells_complete.
+Print Assumptions C08_point_query.
+Print Assumptions C08_segment_query.
+Print Assumptions C08_neighbourhood.
+
+(* non-vacuity: a 4 x 4 index with margin 0 (vertices on the outer border), two features *)
+Example C08_nonvacuous :
+  match make 0 4 0 4 0 1 1 with
+  | Ok ix => match build ix [[(0, 0); (4, 4)]; [(0, 4); (2, 2)]]%Q with
+             | Ok g => request_point ix g 4 4 = Some [0%nat] /\ request_point ix g 2 2 = Some [0%nat; 1%nat] /\
+                       match neighborhood_point ix g 0 0 (units ix 1) with Some r => existsb (Nat.eqb 1) r = true | None => False end
+             | Err _ => False end
+  | Err _ => False end.
+Proof. vm_compute. repeat split; reflexivity. Qed.
